@@ -119,6 +119,11 @@ theorem apply0_sameView_easy (w : World) (l : Label) (hg : guard w l) (hI : MInv
     · exact SameView.refl _
   case expectTimeout x => simp only [apply0]; split <;> first | exact sv_skel (by rfl) | exact SameView.refl _
   case expectCancelReq x => simp only [apply0]; split <;> first | exact sv_skel (by rfl) | exact SameView.refl _
+  case hSkip p_ b_ e_ k_ =>
+    simp only [apply0]
+    cases hA : w.act p_ with
+    | none => exact SameView.refl _
+    | some A => exact sv_setAct_running w p_ A _ hA rfl
 
 
 theorem lock_none_stack_nil (w : World) (hI : MInv w) (h : w.lock = none) : w.stack = [] := by
